@@ -44,6 +44,10 @@ def run(chk, prog):
         return leaves(t[2]) + leaves(t[3]) if is_t(t, "phi") else [t]
     oke = is_t(r.ret, "call") and r.ret[2] == (("star", P("addrs")),) and all(is_t(x, "attr") and x[2] == "extend" for x in leaves(r.ret[1])) and len(leaves(r.ret[1])) == 3
     chk.require(oke, "CHM-NEST", "ChoiceMap.entry", "value / dict / map extended by the address components in order", derived=show(r.ret)[:200], expected="chm.extend(*addrs)", where=W("entry"))
+    # the trace's choice map is assembled by extending each sub-trace's choices with its address and merging them: Static.merge_with / Static.extend decide
+    # whether tuple addresses sharing a prefix all survive ("contains exactly the addresses traced") - C17's obligations on them
+    from ._share import take
+    take(chk, prog, "C17", lambda o: o["instance"].split("/")[0] in ("Static.merge_with", "Static.build", "Static.extend", "ChoiceMap.extend", "Or.build") or o["rule"] == "CHM-LEFTBIAS", "choice-map assembly obligations (from C17)", 1)
     chk.explanation = "typestate of the static handlers (record once, unique addresses, missing-address test), and nesting of tuple addresses in the choice-map builders"
     for o in [o for o in obs.items if "C22" in o["props"]][:5]:
         chk.sample({"rule": o["rule"], "instance": o["instance"], "derived": o["derived"][:160]})
